@@ -26,7 +26,9 @@ REQUIRED = ['perm_invariant', 'perm_invariant_strata', 'perm_invariant_snm', 'pe
             'tmle_flip_scores', 'tmle_flip', 'tmle_flip_continuous',
             'tmle_fit_flip_generated_binary', 'tmle_fit_flip_generated_continuous',
             'ice_perm_invariant', 'ice_perm_invariant_cellfit', 'ice_cellfit_perm', 'ice_relabel_invariant',
-            'survival_flip']
+            'survival_flip',
+            # Props/C08_Snm.lean: the regenerated lhm / rha of _closed_form_solver_ are the model's
+            'snm_generated', 'snm_resid_generated']
 RULE = ('pairs (data set, transformed data set) for each estimator class of the property: data = 2 categorical '
         'covariates + one continuous covariate X associated with treatment and outcome, binary or normal outcome, '
         'optionally MAR-missing outcomes (combined sample/target data for the generalize classes, wide 2-3 period '
